@@ -677,3 +677,57 @@ def m_fn_call(eng, m, args, dest_ts, st, where):
     if not isinstance(clo, Clo) or not isinstance(tup, St):
         raise Unsupported('Fn::call on %r' % (clo,))
     return eng.call_closure(clo, list(tup.fs), st, where)
+
+
+# ---------------------------------------------------------------------------------------------- &str / String / SourceSpan (C17)
+STR_BASE = z3.BitVec('str_alloc_base', 64)       # address of byte 0 of the (single) input allocation
+
+
+@model('AsRef<str>::as_ref', r'^<(?:S|&str|String) as AsRef<str>>::as_ref$')
+def m_as_ref_str(eng, m, args, dest_ts, st, where):
+    return deref(eng, st, args[0])
+
+
+@model('str::len', r'^core::str::<impl str>::len$')
+def m_str_len(eng, m, args, dest_ts, st, where):
+    return deref(eng, st, args[0]).fs[2]
+
+
+@model('str::as_ptr', r'^core::str::<impl str>::as_ptr$')
+def m_str_as_ptr(eng, m, args, dest_ts, st, where):
+    s = deref(eng, st, args[0])
+    return Sc(STR_BASE + s.fs[1].t)
+
+
+@model('Into<String> for &str', r'^<&str as Into<String>>::into$')
+def m_str_into_string(eng, m, args, dest_ts, st, where):
+    if not eng.tenv.string_as_slice:
+        return NotImplemented
+    return deref(eng, st, args[0])
+
+
+@model('Into<SourceSpan> for (usize, usize)', r'^<\(usize, usize\) as Into<SourceSpan>>::into$')
+def m_into_span(eng, m, args, dest_ts, st, where):
+    t = deref(eng, st, args[0])
+    return St(eng.ty(dest_ts), [t.fs[0], t.fs[1]])
+
+
+@model('SourceSpan::offset', r'^SourceSpan::(offset|len)$')
+def m_span_offset(eng, m, args, dest_ts, st, where):
+    return deref(eng, st, args[0]).fs[0 if m.group(1) == 'offset' else 1]
+
+
+@model('Result::map_err', r'^Result::<(.+)>::map_err::<.*>$')
+def m_map_err(eng, m, args, dest_ts, st, where):
+    r, clo = deref(eng, st, args[0]), args[1]
+    rty = eng.ty(dest_ts)
+    isok = is_variant(r, 'Ok')
+    st2 = _sub_state(st, AND(st.pc, NOT(isok)))
+    e2 = eng.call_callable(clo, [payload(r, 'Err')[0]], st2, where)
+    return ite(isok, mk_variant(rty, 'Ok', [payload(r, 'Ok')[0]]), mk_variant(rty, 'Err', [e2]))
+
+
+@model('integer saturating_sub', r'^core::num::<impl (u8|u16|u32|u64|usize)>::saturating_sub$')
+def m_saturating_sub(eng, m, args, dest_ts, st, where):
+    a, b = deref(eng, st, args[0]).t, deref(eng, st, args[1]).t
+    return Sc(z3.If(z3.ULT(a, b), bv(0, a.size()), a - b))
